@@ -27,6 +27,8 @@ type cfgSpecJ struct {
 type cfgCase struct {
 	Cfgs  []cfgSpecJ `json:"cfgs"`
 	Bytes []int      `json:"bytes"`
+	// the same list, the first config's cipher_suites vector carrying 1..3 dangling bytes (all lengths consistent)
+	Dangling [][]int `json:"dangling"`
 }
 
 func ib(x []int) []byte {
@@ -85,6 +87,11 @@ func checkCfgCase(c *cfgCase) (diff string) {
 	for k := 0; k < len(wantBytes); k++ {
 		if _, err := ech.ParseConfigList(wantBytes[:k]); err == nil {
 			return fmt.Sprintf("a truncation to %d of %d bytes is accepted", k, len(wantBytes))
+		}
+	}
+	for k, d := range c.Dangling {
+		if got, err := ech.ParseConfigList(ib(d)); err == nil {
+			return fmt.Sprintf("a cipher_suites vector with %d dangling byte(s) (a truncated last suite) is accepted: %+v", k+1, got)
 		}
 	}
 	// trailing garbage after the list is not a list either
